@@ -63,6 +63,8 @@ func NewWithOptions(opts *Options) *MemFS {
 
 	var volumeName string
 
+	curDir := "/"
+
 	if vfs.OSType() == avfs.OsWindows {
 		vfs.dirMode |= avfs.DefaultDirPerm
 		vfs.fileMode |= avfs.DefaultFilePerm
@@ -70,7 +72,10 @@ func NewWithOptions(opts *Options) *MemFS {
 		volumeName = avfs.DefaultVolume
 		vfs.volumes = make(volumes)
 		vfs.volumes[volumeName] = vfs.rootNode
+		curDir = volumeName + string(vfs.PathSeparator())
 	}
+
+	_ = vfs.SetCurDir(curDir)
 
 	if len(opts.SystemDirs) == 0 {
 		opts.SystemDirs = avfs.SystemDirs(vfs, volumeName)
